@@ -77,6 +77,9 @@ class Rule_ST04(BaseRule):
             or len(case1_else_expressions) > 1
             or len(expression_children) > 1
             or not case2
+            # A nested CASE without any WHEN or ELSE clause (where END is not
+            # a reserved word, `CASE END` parses as one) has nothing to move.
+            or not case2_first_when
         ):
             return LintResult()
 
